@@ -275,7 +275,11 @@ def mc_monitors(sc, runs, ref_runs):
             flagged_full = set(c["red"] + ":" + c["tr"] for c in flagged)
             if not set(coll) <= flagged_full:
                 fails.append(("C16:collected_sound", "run %d: a collected state was not evaluated / does not satisfy collect" % k))
-            if set(c["red"] for c in flagged) != coll_red:
+            # exactness is MODULO THE CHECKER'S EQUALITY (C16_collected_exact): the collected HashSet keeps one
+            # representative of each class, and without a cache a class can be evaluated at several depths
+            eqp_of = {c["red"] + ":" + c["tr"]: c["eqp"] for c in flagged}
+            coll_eqp = set(eqp_of[x] for x in coll if x in eqp_of)
+            if set(c["eqp"] for c in flagged) != coll_eqp:
                 fails.append(("C16:collected_complete", "run %d: collected set differs from the evaluated states satisfying collect" % k))
             cnt = {}
             for c in r["checks"]:
@@ -320,7 +324,32 @@ def mc_monitors(sc, runs, ref_runs):
                                   % (k, len(b - a))))
             elif rr["result"] and rr["result"][0] in ("OK", "ERR") and rr["result"][0] != r["result"][0]:
                 fails.append(("C03:verdict_kind", "run %d: implementation %s, reference semantics %s" % (k, r["result"][0], rr["result"][0])))
+        # --- C16: a run from collected states explores the union of what is reachable from them after the callback:
+        # the same stage explored by the reference semantics must evaluate the same states (modulo the checker's
+        # equality).  Only where the comparison is meaningful: state-based predicates, or BFS everywhere (then a class
+        # is first discovered at its minimal depth under both equalities, so depth-based collects agree as well)
+        if ref_runs is not None and k < len(ref_runs) and r["kind"] == "RUNFROM" and staged_comparable(sc):
+            rr = ref_runs[k]
+            if rr["result"] and rr["result"][0] == "OK" and r["result"][0] == "OK" and rr["kind"] == "RUNFROM":
+                a = set(c["eqp"] for c in r["checks"])
+                b = set(c["eqp"] for c in rr["checks"])
+                if a != b:
+                    fails.append(("C16:stage_union", "run %d (from collected states): %d evaluated states are not reached by the "
+                                  "reference semantics from the collected set, %d reached ones were not evaluated"
+                                  % (k, len(a - b), len(b - a))))
     return fails
+
+
+STATE_BASED_PREDS = ("NONE", "NOEVENTS", "OUTBOXEQ", "OUTBOXMAX", "HISTMAX", "ALL")
+
+
+def staged_comparable(sc):
+    preds = [l.split() for l in sc[2] if l.startswith("PRED ")]
+    runs = [l.split() for l in sc[2] if l.startswith(("RUN ", "RUNFROM "))]
+    state_based = all(p[2] in STATE_BASED_PREDS for p in preds)
+    all_bfs = all(r[1] == "BFS" for r in runs)
+    no_disabled = all(r[2] != "DISABLED" for r in runs)
+    return (state_based or all_bfs) and no_disabled
 
 
 
@@ -412,7 +441,7 @@ def mc_run_all(ctx, scs, can_run_model, tag, with_ref=True):
                                 "impl_observation_head": il[:6]})
     ctx.clauses.update(["C09:rolled_back", "C09:mode_restored", "C14:purged", "C14:stays_silent", "C03:verdict_ok",
                         "C03:error_genuine", "C02:error_trace", "C16:collected_sound", "C16:collected_complete",
-                        "C16:status_counts", "C02:state_genuine", "C03:exhaustive", "C03:verdict_kind", "C20:no_panic",
+                        "C16:status_counts", "C16:stage_union", "C02:state_genuine", "C03:exhaustive", "C03:verdict_kind", "C20:no_panic",
                         "C19:depth_predicates", "C19:state_depth_current_run", "C14:no_panic", "C19:predicate_value"])
     return impl, parsed
 
@@ -529,7 +558,9 @@ def suite_mc_matrix_sb(ctx, can_run_model):
         feat = gen_mc.gen_features(rng)
         feat["clock"] = False
         feat["stateless"] = False
-        base = gen_mc.gen_base(rng, feat)
+        feat["sink"] = rng.random() < 0.45      # an order-recording stateless sink: converging histories (C11 hash)
+        base = gen_mc.gen_fanin_base(rng) if j % 5 == 2 else gen_mc.gen_base(rng, feat)
+        feat_count(ctx, base["feat"])
         g = {}
         for st in ("BFS", "DFS"):
             for vm in ("FULL", "PARTIAL", "DISABLED"):
@@ -574,7 +605,7 @@ def suite_mc_matrix_sb(ctx, can_run_model):
                  g[("BFS", "FULL")])
         f = base["feat"]
         tot = sum(len(r["checks"]) for r in res.values())
-        if tot >= 40 and (f["timers"] or f["drop"] or f["dupl"] or f["corrupt"]):
+        if tot >= 40 and (f["timers"] or f["drop"] or f["dupl"] or f["corrupt"] or f.get("sink")):
             ctx.nontrivial.add(sc_hash(g[("BFS", "FULL")]))
 
 
@@ -689,14 +720,18 @@ def suite_netsweep(ctx, can_run_model):
       for drop in (0.0, 0.5):
         for dupl in (0.0, 0.5):
             for corr in (0.0, 0.5):
-                for cutk in ("none", "dropout_src", "dropin_dst", "link", "reverse_link", "dropin_src", "partition",
-                             "disconnect_dst", "cut_then_reset"):
+                for cutk, pre in [(c, p) for c in ("none", "dropout_src", "dropin_dst", "link", "reverse_link", "dropin_src",
+                                                   "partition", "disconnect_dst", "cut_then_reset") for p in (False, True)]:
                     pl = rng.choice(payloads)
                     msg = "%s %s" % (bstr(b"A"), bstr(pl))
+                    # pre: the node pair has already carried traffic (process 2 on node 0 -> process 1 on node 1) when
+                    # the rates / cuts are applied: settings must take effect for LATER sends too
                     lines = ["VERBOSE", "NODE 0 0", "NODE 1 0",
                              "PROC 0 0 1 0 0 1", "ROW 0 2 S 1 %s S 2 %s" % (msg, msg),
-                             "PROC 1 1 0 0 0 1", "ROW 1 0", "PROC 2 0 0 0 0 1", "ROW 2 0",
-                             "NET 0 0 0 %d %d" % (f64_bits(1.0), f64_bits(1.0))]
+                             "PROC 1 1 0 0 0 1", "ROW 1 0"] + \
+                            (["PROC 2 0 1 0 0 1", "ROW 2 1 S 1 %s %s" % (bstr(b"PING"), bstr(b"pre"))] if pre
+                             else ["PROC 2 0 0 0 0 1", "ROW 2 0"]) + \
+                            ["NET 0 0 0 %d %d" % (f64_bits(1.0), f64_bits(1.0))]
                     lines += gen_mc.clock_lines([0.0], 12)
                     in_snapshot = rng.random() < 0.5      # rates set in the simulator before the snapshot
                     rates = []
@@ -711,6 +746,8 @@ def suite_netsweep(ctx, can_run_model):
                     cut = {"none": [], "dropout_src": ["DROPOUT 0"], "dropin_dst": ["DROPIN 1"], "link": ["DISABLELINK 0 1"],
                            "reverse_link": ["DISABLELINK 1 0"], "dropin_src": ["DROPIN 0"], "partition": ["PARTITION 1 0 1 1"],
                            "disconnect_dst": ["DISCONNECT 1"], "cut_then_reset": ["DISABLELINK 0 1", "DROPOUT 0", "RESET"]}[cutk]
+                    if pre:
+                        lines.append("CB LOCAL 0 2 %s" % msg)
                     for o in rates + cut:
                         lines.append("CB NET " + o)
                     lines.append("CB LOCAL 0 0 %s" % msg)
@@ -927,7 +964,7 @@ def suite_handoff(ctx, can_run_model):
     impl = vlib.run_impl(scs, "ho-impl")
     model = vlib.run_model(scs, "ho-model") if can_run_model else {}
     timpl = vlib.run_impl(twins, "ho-twin")
-    ctx.clauses.update(["C04:sim_path_explored", "C09:source_untouched", "C15:snapshot_no_panic", "C15:crashed_nodes",
+    ctx.clauses.update(["C04:sim_path_explored", "C13:feasible_schedule_explored", "C09:source_untouched", "C15:snapshot_no_panic", "C15:crashed_nodes",
                         "C15:inflight_once"])
     for (sc, tw, (rsc, feat, seed)) in zip(scs, twins, raw):
         sid = sc[1]
@@ -1003,6 +1040,9 @@ def suite_handoff(ctx, can_run_model):
             ctx.count("inclusion_checked")
             if miss:
                 fail("C04:sim_path_explored", "%d of %d process-visible states of the continued simulation were not visited by the checker" % (len(miss), len(after)))
+                if not feat.get("corrupt"):
+                    fail("C13:feasible_schedule_explored", "the schedule the timed simulator performs (%d of %d process-visible "
+                         "states) is not among the explored ones" % (len(miss), len(after)))
             nchecks = sum(1 for l in il if l.startswith("CHECK"))
             if nchecks >= 6 and len(after) >= 3 and (feat["timers"] or feat["drop"] or feat["dupl"] or feat["corrupt"] or feat["rand_delay"]):
                 ctx.nontrivial.add(sc_hash(sc))
@@ -1586,8 +1626,9 @@ PROPERTIES = {
                 "counters; clocks and ids projected away) the CONTINUED simulation passes through, with the draws it "
                 "actually made, must be among the states the checker evaluated.  distinct_nontrivial as C15.",
         "assumptions": STD_ASSUMPTIONS + SIM_ASSUMPTIONS + [
-            "PARTIAL: the system-level inclusion is monitored on sampled hand-offs, not proved; proved are the timer-order, "
-            "fate and snapshot ingredients listed in Props/C04.v",
+            "theorem hypotheses: clock- and draw-independent handlers, override-free steps (F10), corruption rate 0 (F13), "
+            "in-flight messages routed to the current node of their destination, continuation by step calls; outside "
+            "them the deciding evidence is the inclusion monitor on sampled hand-offs",
             "known findings F13 (corruptible copy behind an identical older copy) and F10 via hand-off are listed"],
     },
     "C14": {
@@ -1629,13 +1670,15 @@ PROPERTIES = {
                                           "Msg.corrupt does (checked on the payloads of this run and by the simulator monitors)"],
     },
     "C13": {
-        "suites": [suite_store],
+        "suites": [suite_store, suite_handoff],
         "rule": "as C20 (STORE scenarios with timers of equal and different delays set, re-set, cancelled and fired at "
-                "different moments, both ordering modes); distinct_nontrivial as C20",
-        "assumptions": STD_ASSUMPTIONS + [
-            "PARTIAL: the feasibility clause (every real-time-feasible schedule is explored) is proved only as the "
-            "real-time lemma C13_blocker_fires_first_partial; the system-level statement is checked by the hand-off "
-            "inclusion monitor of C04"],
+                "different moments, both ordering modes); distinct_nontrivial as C20.  Feasibility: HANDOFF scenarios as "
+                "C04 (the schedule the timed simulator performs must be among the explored ones; clause "
+                "C13:feasible_schedule_explored for scenarios without corruption).",
+        "assumptions": STD_ASSUMPTIONS + SIM_ASSUMPTIONS + [
+            "feasibility theorem (= C04_stage2) hypotheses: override-free steps (F10), corruption rate 0, clock- and "
+            "draw-independent handlers; timed executions are those of the simulator model",
+            "known finding F10 via hand-off is listed"],
     },
     "C20": {
         "suites": [suite_store],
